@@ -14,6 +14,14 @@ def rust_type(t, declared_types):
     return d['path'] + '::' + d.get('rust', t.split('.')[-1])
 
 
+def lockfile(repo):
+    """Cargo.lock to start from: the repository's own if it has one, else the harness's (a superset)"""
+    p = os.path.join(repo, 'Cargo.lock')
+    if os.path.exists(p):
+        return p
+    return os.path.join(os.path.dirname(os.path.dirname(os.path.abspath(__file__))), 'harness', 'Cargo.lock')
+
+
 def write_crate(dirpath, repo, be, body, astro=False, extra_features=()):
     os.makedirs(os.path.join(dirpath, 'src'), exist_ok=True)
     feats = ['doc'] + (['fpdec'] if be == 'dec' else []) + list(extra_features)
@@ -23,7 +31,7 @@ def write_crate(dirpath, repo, be, body, astro=False, extra_features=()):
         toml.append('astronomical-quantities = { path = "%s/astronimical_quantities" }' % repo)
     toml += ['', '[workspace]', '', '[profile.dev]', 'debug = false', 'incremental = false']
     open(os.path.join(dirpath, 'Cargo.toml'), 'w').write('\n'.join(toml) + '\n')
-    shutil.copy(os.path.join(repo, 'Cargo.lock'), os.path.join(dirpath, 'Cargo.lock'))
+    shutil.copy(lockfile(repo), os.path.join(dirpath, 'Cargo.lock'))
     open(os.path.join(dirpath, 'src', 'lib.rs'), 'w', encoding='utf-8').write(body)
 
 
